@@ -26,7 +26,7 @@ let op_of (s : string) : op =
   | ["MR"] -> MReset
   | "VS" :: r -> VSet (List.map slot r)
   | ["VR"] -> VReset
-  | ["AA"; id; data] -> AAdd (str_of id, bytes_of_hex data)
+  | ["AA"; id; desc; data] -> AAdd (str_of id, str_of desc, bytes_of_hex data)
   | "AR" :: r -> ARemove (List.map str_of r)
   | _ -> failwith ("bad op " ^ s)
 
@@ -37,7 +37,12 @@ let show_store (st : store) : string =
   ^ ";pr=" ^ String.concat "|" (List.map (fun (k, v) -> show k ^ "=" ^ show v) st.s_pr)
   ^ ";pl=" ^ opt st.s_pl ^ ";pm=" ^ opt st.s_pm
   ^ ";vp=" ^ (match st.s_vp with None -> "-" | Some l -> "[" ^ String.concat "," (List.map (function None -> "n" | Some v -> hex_of_n v) l) ^ "]")
-  ^ ";at=" ^ String.concat "|" (List.map (fun (k, v) -> show k ^ "=" ^ hex_of_bytes v) st.s_att)
+  ^ ";at=" ^ String.concat "|" (List.map (fun (k, v) -> show k ^ "=" ^ hex_of_bytes (a_data v) ^ ":" ^ show (a_fname v) ^ ":" ^ show (a_desc v)) st.s_att)
+  (* extract one name at a time, then all the names in one call *)
+  ^ (let ps = att_probes st.s_att in
+     ";xo=" ^ String.concat "|" (List.map (fun p -> show p ^ ">" ^
+         (match att_find p st.s_att with None -> "-" | Some (k, v) -> show k ^ ":" ^ hex_of_bytes (a_data v))) ps)
+     ^ ";xs=" ^ String.concat "|" (List.map (fun (k, v) -> show k ^ ":" ^ hex_of_bytes (a_data v)) (extract_many ps st.s_att)))
 
 (* starting document: "ver" (generated PDF without Info and XMP) or
    "ver|hasinfo|infokw|xmp": infokw "-" or a string; xmp "-" (no /Metadata), "n" (packet
@@ -48,6 +53,14 @@ let init_of (s : string) : doc =
   | [v; h; kw; x] ->
     init_doc (n_of_hex v) (h = "1") (if kw = "-" then None else Some (str_of kw))
       (if x = "-" then None else if x = "n" then Some None else Some (Some (str_of x)))
+  | [v; h; kw; x; a] ->
+    (* attachments of the starting document: key~filename~description~hexdata;... *)
+    let ent e = match String.split_on_char '~' e with
+      | [k; f; d; b] -> (str_of k, ((str_of f, str_of d), bytes_of_hex b))
+      | _ -> failwith ("bad attachment " ^ e) in
+    init_doc_att (n_of_hex v) (h = "1") (if kw = "-" then None else Some (str_of kw))
+      (if x = "-" then None else if x = "n" then Some None else Some (Some (str_of x)))
+      (List.map ent (split ';' a))
   | _ -> failwith ("bad init " ^ s)
 
 let dispatch fn args = match fn, args with
